@@ -92,6 +92,9 @@ EdgeSet ==
   {Rec(sh, b, a, NoPref) : sh \in {"pq", "pq13"}, b \in 16..64, a \in EdgeAlgs}
   \cup {Rec(sh, b, a, NoPref) : sh \in {"pq", "pq13"}, b \in {65, 68, 72, 76, 80, 85, 90, 95, 100}, a \in {"auto", "qs", "mpqs", "siqs"}}
   \cup {Rec("pq13", b, "auto", NoPref) : b \in {105, 110, 115, 120, 125, 126, 127, 128, 129, 130}}
+  \* the largest word-sized numbers without small factors (see the driver: p q just below 2^bits), every selector that
+  \* works on machine words, and the sizes where a multiplier k <= 50 pushes k n to the word boundary (2^64/k)
+  \cup {Rec("topword", b, a, NoPref) : b \in {32, 48, 59, 60, 61, 62, 63, 64}, a \in {"auto", "rho", "squfof", "qs64", "ecm128"}}
   \* the 128-bit ECM up to its own word boundary (a 1:2 split keeps the smaller factor within reach of ECM)
   \cup {Rec("pq13", b, "ecm128", NoPref) : b \in {65, 96, 112, 120, 126, 127, 128}}
 \* near the size limit: q * P with q - 1 smooth (found at once by P-1 / ECM) so that the call finishes;
@@ -117,7 +120,7 @@ WideSet == {Rec("pq", b, a, NoPref) : b \in {132, 136, 144, 160}, a \in {"auto",
 \* P-1 on structured non-squarefree inputs p^2 q [r]: p and q come out of different stage-1 blocks (see the driver)
 Pm1Structured == {Rec("sp2q", b, "pm1", NoPref) : b \in {100, 118, 130, 150}}
 
-C01Set == {r \in Grid : GridOK(r)} \cup PrefSet \cup EcmSet \cup {r \in SpecialSet : SpecialOK(r)} \cup BoundarySet \cup WideSet \cup Pm1Structured
+C01Set == {r \in Grid : GridOK(r)} \cup PrefSet \cup EcmSet \cup {r \in SpecialSet : SpecialOK(r)} \cup BoundarySet \cup WideSet \cup Pm1Structured \cup {r \in EdgeSet : r.shape = "topword"}
 
 \* C02: selectors the property names, inside the working ranges of DESIGN 3/C02
 C02Auto == {Rec(sh, b, "auto", p) : sh \in Generic, b \in AutoBits, p \in {NoPref}}
